@@ -13,7 +13,7 @@
 import re
 
 from common import Rule, V, finish
-from mirlib import ENTRY_POINTS, short_path
+from mirlib import op_const, op_place, ENTRY_POINTS, short_path
 from srclib import walk, walk_block, lit_str, expr_text, pat_text, pat_bindings
 from tplpaths import Templates, consistent
 from svlib import SVEval, render
@@ -50,6 +50,41 @@ def check_event_uniqueness(P, r6):
             r6.ok("events are made unique by event name")
         else:
             r6.bad(V(r6.id, f.id, "no-uniqueness-by-name", "no uniqueness step keyed on EventInfo.event_name: the same event emitted twice yields two listeners"))
+        # the collision counter is read consistently with where it is incremented: (increment first, `> 1` / `>= 2`) or (compare first, `> 0` / `>= 1`)
+        for g in scope:
+            adds = []
+            cmps = []
+            for b, blk in enumerate(g.blocks):
+                if b not in g.reach_blocks:
+                    continue
+                for st in blk["stmts"]:
+                    rv = st.get("rv")
+                    if not rv or rv["k"] != "bin":
+                        continue
+                    k1 = op_const(rv.get("b"))
+                    if rv["op"] in ("AddWithOverflow", "Add", "AddUnchecked") and k1 and k1.get("int") == 1:
+                        pa = op_place(rv.get("a"))
+                        if pa and any(x["k"] == "deref" for x in pa.get("p", [])):
+                            adds.append(b)
+                    if rv["op"] in ("Gt", "Ge") and k1 and "int" in k1:
+                        cmps.append((b, rv["op"], k1["int"]))
+            for (cb, op, k) in cmps:
+                for ab in adds:
+                    inc_first = g.dominates(ab, cb) and ab != cb or (ab == cb)
+                    thr = k if op == "Gt" else k - 1          # fires when counter > thr
+                    want = 1 if inc_first and ab != cb or ab < cb else 0
+                    if g.dominates(ab, cb):
+                        want = 1
+                    elif g.dominates(cb, ab):
+                        want = 0
+                    else:
+                        continue
+                    if thr == want:
+                        r6.ok("collision counter: %s, suffix when counter %s %d" % ("incremented before the test" if want == 1 else "tested before the increment", op, k))
+                    else:
+                        r6.bad(V(r6.id, g.id, "collision-counter-off-by-one:%s%d:%s" % (op, k, "inc-first" if want == 1 else "test-first"),
+                                 "the collision counter is %s but the suffix is applied when it is %s %d: the second listener with the same identifier is not renamed"
+                                 % ("incremented before the test" if want == 1 else "tested before it is incremented", ">" if op == "Gt" else ">=", k)))
         if by_fn:
             r6.ok("generated identifiers are made unique")
         else:
@@ -320,6 +355,15 @@ def check(ctx):
               "infer_payload_type: string/int/float/bool literals → String/i32/f64/bool, struct expression → its type name, &x and x.clone() → the type "
               "of x, identifiers through the symbol table, everything else → unknown; the symbol table keeps the full type text of parameters and bindings",
               "a symbol table that keeps only the last path segment turns `items: Vec<P>` into the undefined type `Vec`")
+    # a later `let x = ..` shadows an earlier binding of x: the symbol table is updated with insert (overwrite), never entry().or_insert (first wins)
+    for g in P.find("EventParser::extract_local_binding") + P.find("EventParser::extract_param_types"):
+        first_wins = [c for c in g.calls if short_path(c.path) in ("HashMap::entry", "Entry::or_insert", "Entry::or_insert_with", "HashMap::try_insert") and c.bb in g.reach_blocks]
+        ins = [c for c in g.calls if short_path(c.path) == "HashMap::insert" and c.bb in g.reach_blocks]
+        if first_wins:
+            r7.bad(V(r7.id, g.id, "first-binding-wins:%s" % short_path(first_wins[0].path), "the symbol table keeps the first type recorded for a name (%s): a rebinding `let payload = Other {..}` is typed as the earlier one"
+                     % short_path(first_wins[0].path), first_wins[0].file, first_wins[0].line))
+        elif ins:
+            r7.ok("%s: bindings overwrite (HashMap::insert ×%d)" % (short_path(g.id), len(ins)))
     fn = S.fn("EventParser", "infer_payload_type")
     if fn is None:
         r7.bad(V(r7.id, "<anchor>", "missing:infer_payload_type", "anchor not found"))
